@@ -153,6 +153,7 @@ func cmdBuiltins(path string) int {
 		return 2
 	}
 	_ = os.Setenv("VERIF_ENV_SET", "value-from-env")
+	_ = os.Setenv("VERIF_ENV_EMPTY", "")
 	_ = os.Unsetenv("VERIF_ENV_UNSET")
 	fns := builtinfunctions.GetFunctions()
 	out := make([]bResult, len(in.Calls))
